@@ -2,7 +2,7 @@
 
 use core::ops::{Shl, Shr};
 
-use crate::{ibig::IBig, ubig::UBig, Sign::*};
+use crate::{error::panic_allocate_too_much, ibig::IBig, ubig::UBig, Sign::*};
 
 impl UBig {
     /// Raises self to the power of `exp`.
@@ -18,12 +18,16 @@ impl UBig {
         // remove factor 2 before actual powering
         let shift = self.trailing_zeros().unwrap_or(0);
         let result = if shift != 0 {
+            let total_shift = match exp.checked_mul(shift) {
+                Some(n) => n,
+                None => panic_allocate_too_much(),
+            };
             self.repr()
                 .shr(shift)
                 .as_typed()
                 .pow(exp)
                 .into_typed()
-                .shl(exp * shift)
+                .shl(total_shift)
         } else {
             self.repr().pow(exp)
         };
@@ -52,11 +56,15 @@ impl IBig {
         // remove factor 2 before actual powering
         let shift = mag.trailing_zeros().unwrap_or(0);
         let result = if shift != 0 {
+            let total_shift = match exp.checked_mul(shift) {
+                Some(n) => n,
+                None => panic_allocate_too_much(),
+            };
             mag.shr(shift)
                 .as_typed()
                 .pow(exp)
                 .into_typed()
-                .shl(exp * shift)
+                .shl(total_shift)
         } else {
             mag.pow(exp)
         };
